@@ -18,5 +18,5 @@ VERIF_REPO="$root/repo" VERIF_ENGINE_K="$root/engine_k" VERIF_ENGINE_M="$root/en
 rc=$?
 echo "mutant=$name property=$prop exit=$rc"
 grep -E "^(VIOLATION|KNOWN-FINDING|INCONCLUSIVE|OK )" "$root/check.log" | cut -c1-300
-rm -rf "$root/scratch" "$root/repo/target"
+mkdir -p "$root/logs"; cp -r "$root/scratch/logs/." "$root/logs/" 2>/dev/null; rm -rf "$root/scratch" "$root/repo/target"
 exit $rc
